@@ -64,6 +64,7 @@ msg_subject = z3.Function('msg_subject', I, I)
 whole_of = z3.Function('whole_of', I, I)          # stored units of V(k) -> k
 whole_of_r = z3.Function('whole_of_r', R, I)
 N_BALLOT_OBJS = z3.Int('n_ballot_objects')
+RECORD = 'droop.record.ElectionRecord'
 THE_E = z3.Int('the_election')             # the Election object being counted
 
 # saved copies of the candidates (E.rounds[n] = Candidates.copy() taken when round n+1 begins): each copy is an object
@@ -84,7 +85,7 @@ def snapvote_fn(ex):
     return _snapvote[key]
 
 
-GHOST_INT = ('nH', 'nE', 'nD', 'nW', 'nP', 'nlog')
+GHOST_INT = ('nH', 'nE', 'nD', 'nW', 'nP', 'nlog', 'lastcomplete', 'hooked')
 GHOST_STR = ('lasttag', 'lastmsg')
 
 
@@ -374,8 +375,20 @@ def install_election(ex):
                        asm, old * surplus - new * tally < tally + SCALE)
     ex.hooks['pre_store'] = pre_store
 
+    RULE_HOOKS = ('droop.rules.electionrule.ElectionRule.action', 'droop.rules.electionmethods.MethodWIGM.action',
+                  'droop.rules.electionmethods.MethodMeek.action', 'droop.rules.qpq.Rule.action')
+
     def pre_call(info, env, st, fr, node):
         q = info.qualname
+        if q in RULE_HOOKS:
+            # ghost: which action dictionary the rule's recording hook has been called on (C19: complete before append)
+            a = env.get('action')
+            if isinstance(a, SOpt):
+                a = a.inner
+            if isinstance(a, SRef) and a.cname == 'dict':
+                ghost_get(st, 'hooked')
+                st.ghost['g:hooked'] = SInt(a.t)
+            return None
         if q in ('droop.candidate.Candidate.defeat', 'droop.candidate.Candidate.unpend'):
             site_obligations(info, env, st, fr, node)
             return None
@@ -435,12 +448,21 @@ def install_election(ex):
             r = st.ghost.get('rule_ref')
             if r is not None:
                 return r
+            # the rule object seen from outside a rule: an instance of some subclass of ElectionRule; calls on it are
+            # checked against the base-class contract, which every override is verified against (behavioural subtyping)
+            base = repo.resolve('droop.rules.electionrule.ElectionRule')
+            if base is not None:
+                return SRef(base, z3.Int('the_rule'))
         if kind == 'model:rounds':
             return SRef('rounds', ref.t)
+        if kind == 'model:flag':
+            return SBool(fresh_bool(field))      # a flag the model does not track: any value
         return None
 
     def pseudo_subscript(c, i, st, fr):
         "E.rounds[n]: one saved copy per round begun so far (len(E.rounds) == E.round: A-rounds, SCAN-checked)"
+        if c.cname == RECORD and isinstance(i, SStr) and i.lit == 'actions':
+            return ex.ok(SRef('actionlog', c.t), st)     # the list of recorded actions: the ghost log
         if c.cname != 'rounds' or not isinstance(i, SInt):
             return None
         ex.col.assumed.add('E.rounds[n] is the copy of the candidates saved when round n+1 began (model; SCAN rounds-protocol)')
@@ -449,6 +471,13 @@ def install_election(ex):
         return ex.split(z3.And(idx >= 0, idx < rnd), st, lambda s_: ex.ok(SRef('snap', z3.simplify(idx)), s_),
                         lambda s_: ex.exc('IndexError', s_))
     ex.hooks['pseudo_subscript'] = pseudo_subscript
+
+    def setitem(c, i, v, st, fr):
+        "record[key] = value for the header entries of the election record: not modelled (only the action list is)"
+        if isinstance(c, SRef) and c.cname == RECORD and isinstance(i, SStr) and i.lit is not None and i.lit != 'actions':
+            return ex.ok(None, st)
+        return None
+    ex.hooks['setitem'] = setitem
 
     def snapshot_abs(n, st):
         from .l2 import mk_abs
